@@ -198,6 +198,22 @@ func checkC15(c caseC15) (Outcome, error) {
 			return out, nil
 		}
 		p, err := period.NewPeriodFromPatternString(s)
+		if !inFourShapes(s) && malformedInstance(s) {
+			// digits, `-`, `Q`, `W`, sign and blank only, but not one of the shapes: a malformed
+			// instance of the pattern syntax (wrong digit count, stray sign or blank, missing number).
+			// klog reads a single-digit week (`2020-W1`); everything else of this kind is rejected.
+			if err == nil && !valid {
+				return out, fmt.Errorf("malformed period pattern %q is accepted", s)
+			}
+			if err == nil {
+				if e := wantPeriod("pattern "+s, p, since, until); e != nil {
+					return out, e
+				}
+			}
+			out.Label("malformed-instance")
+			out.NonTrivial = true
+			return out, nil
+		}
 		if !inFourShapes(s) {
 			// The property speaks about the four shapes YYYY, YYYY-MM, YYYY-Qq, YYYY-Www. Whether
 			// klog is lenient about other spellings (`2020/01`, `2020-1`, `2020-q1`) is its own
@@ -251,6 +267,16 @@ func inFourShapes(s string) bool {
 		return true
 	}
 	return false
+}
+
+// malformedInstance: s is written with the characters of the pattern syntax only.
+func malformedInstance(s string) bool {
+	for _, r := range s {
+		if !(r >= '0' && r <= '9') && r != '-' && r != 'Q' && r != 'W' && r != '+' && r != ' ' {
+			return false
+		}
+	}
+	return true
 }
 
 func atoiStrict(s string) (int, bool) {
@@ -358,7 +384,7 @@ func eachC15(shard, shards int, ev *evid.Rec, emit func(caseC15) bool) {
 		}
 	}
 	if shard == 0 {
-		for _, p := range []string{"", "2020-", "20-01", "2020-Q", "2020-W", "2020-W001", "2020-001", "2020-q1", "2020-w01", "2020-Q01", "2020/01", " 2020", "2020 ", "20200", "2020-01-01", "２０２０", "2020-W1x", "-2020", "+2020"} {
+		for _, p := range []string{"", "2020-", "20-01", "2020-Q", "2020-W", "2020-W001", "2020-001", "2020-q1", "2020-w01", "2020-Q01", "2020/01", " 2020", "2020 ", "20200", "2020-01-01", "２０２０", "2020-W1x", "-2020", "+2020", "20", "020", "02020", "2020-1", "2020-+1", "2020-Q+1", "2020-W+1", "2020--01", "2020-Q-1", "+2020-01", "2020 -01", "2020- 01", "2020-W 1", "2020-Q 1", "0", "2020-W0", "2020-W", "2020-Q", "2020-", "99999", "2020-W100", "2020-Q10", "2020-100"} {
 			if !emit(caseC15{Part: "pattern", S: p}) {
 				return
 			}
